@@ -389,3 +389,110 @@ def filter_pseudo_headers_ref(k: int, i0: int, i1: int, i2: int, i3: int, i4: in
     rest = [(n, v) for n, v in headers if not n.startswith(b":") and n != b"host"]
     ok = got == [(b"host", first)] + rest and headers == before
     return done(ok, headers=headers)
+
+
+# ------------------------------------------------------------------ uploads after early-answered uploads on the same HTTP/2 connection
+
+
+@harness(
+    "C01",
+    dom={"early": (0, 3), "each": (0, 2), "zi": (0, 3), "flavour": (0, 1)},
+    split={"early": "each"},
+    witnesses=[{"early": 1, "each": 2, "zi": 1, "flavour": 0}, {"early": 3, "each": 1, "zi": 3, "flavour": 1}, {"early": 0, "each": 0, "zi": 2, "flavour": 0}],
+    budget={"quick": 120, "thorough": 400},
+    per_path=120,
+    bounds="one HTTP/2 connection: 0..3 uploads of {1000, 21845, 65535} bytes to an application that answers at once without reading, the client (which respects flow control) finishing each upload after the response, then one upload of {0, 10, 70000, 150000} bytes to an application that reads everything: that instance must receive exactly the bytes sent, ending with more_body false",
+    encodes=["hypercorn/protocol/h2.py::H2Protocol._handle_events", "hypercorn/protocol/http_stream.py::HTTPStream.handle", "hypercorn/protocol/http_stream.py::HTTPStream.app_put"],
+    stubs=["tier B runtime", "client-side h2 state machine that never exceeds the windows the server granted"],
+)
+def h2_upload_after_early_answers(early: int, each: int, zi: int, flavour: int) -> bool:
+    """
+    pre: DOM(h2_upload_after_early_answers, early=early, each=each, zi=zi, flavour=flavour)
+    post: _
+    """
+    from vf.rt import NoTracing
+
+    enter()
+    early = conc(early, 0, 3)
+    each = [1000, 21845, 65535][conc(each, 0, 2)]
+    size = [0, 10, 70000, 150000][conc(zi, 0, 3)]
+    flavour = "asyncio" if conc(flavour, 0, 1) == 0 else "trio"
+    got = {}
+
+    async def app(scope, receive, send, sync_spawn=None, call_soon=None):
+        path = scope["raw_path"]
+        if path.startswith(b"/early"):
+            await send({"type": "http.response.start", "status": 413, "headers": [(b"content-length", b"0")]})
+            await send({"type": "http.response.body", "body": b"", "more_body": False})
+            return
+        body, msgs, final = b"", 0, 0
+        while True:
+            m = await receive()
+            if m["type"] != "http.request":
+                break
+            msgs += 1
+            body += m["body"]
+            if not m.get("more_body"):
+                final += 1
+                break
+        got[path] = (len(body), body[:16], body[-16:], final)
+        await send({"type": "http.response.start", "status": 200, "headers": [(b"content-length", b"2")]})
+        await send({"type": "http.response.body", "body": b"ok", "more_body": False})
+
+    conn = Conn(app, make_config(), alpn="h2", flavour=flavour)
+    c = H2Client()
+    conn.feed(c.take())
+    c.feed(conn.take())
+    conn.feed(c.take())
+
+    def upload(sid: int, path: bytes, payload: bytes) -> str:
+        c.request(sid, b"POST", path, end_stream=False)
+        conn.feed(c.take())
+        c.feed(conn.take())
+        rest = [payload] if payload else []
+        if not rest:
+            c.data(sid, b"", end_stream=True)
+        rounds = 0
+        while rest and rounds < 400:
+            rounds += 1
+            with NoTracing():
+                room = min(c.conn.local_flow_control_window(sid), c.conn.max_outbound_frame_size)
+                if room > 0:
+                    chunk, rest[0] = rest[0][:room], rest[0][room:]
+                    if not rest[0]:
+                        rest.pop()
+                    c.conn.send_data(sid, chunk, end_stream=not rest)
+            more = c.take()
+            if more:
+                conn.feed(more)
+            c.feed(conn.take())
+            conn.feed(c.take())  # acknowledgements of what the server sent
+            if room <= 0 and not more:
+                return f"stream {sid}: no flow-control credit left with {sum(len(r) for r in rest)} of {len(payload)} body bytes unsent"
+        conn.feed(c.take())
+        c.feed(conn.take())
+        return ""
+
+    why = ""
+    sid = 1
+    for i in range(early):
+        why = upload(sid, b"/early%d" % i, bytes((j * 7 + i) % 251 for j in range(each)))
+        if why:
+            # the early-answered stream itself may legitimately run out of stream-level credit: only the connection must stay usable
+            why = ""
+        sid += 2
+    payload = bytes((j * 13 + 5) % 251 for j in range(size))
+    why = upload(sid, b"/up", payload)
+    if not why:
+        g = got.get(b"/up")
+        if g is None:
+            why = "the uploading application instance never finished reading"
+        elif g != (len(payload), payload[:16], payload[-16:], 1):
+            why = f"application received {g[0]} bytes (final messages: {g[3]}), {len(payload)} were sent"
+        else:
+            st = c.streams.get(sid)
+            if c.errors or st is None or st.status != 200 or st.data != b"ok" or st.ended != 1:
+                why = "client did not see the 200 response: %r %r" % (c.errors, st)
+    if not why and conn.sched.errors:
+        why = "exception escaped a task: %r" % (conn.sched.errors[0],)
+    return done(why == "", early_uploads=early, early_size=each, size=size, flavour=flavour, why=why)
